@@ -44,6 +44,11 @@ func tagOf(f fdef) string {
 		parts = append(parts, "uniqueIndex")
 	case strings.HasPrefix(f.Idx, "composite:"):
 		parts = append(parts, "index:"+f.Idx[len("composite:"):])
+	case f.Idx == "partial1":
+		parts = append(parts, "index:idx_pu")
+	case f.Idx == "partial2":
+		// the options of a composite index declared on its SECOND member
+		parts = append(parts, "index:idx_pu,unique,where:"+f.Col+" >= 0")
 	}
 	return `gorm:"` + strings.Join(parts, ";") + `"`
 }
@@ -303,6 +308,20 @@ func run(r *rand.Rand, caseNo int) (hx.M, error) {
 	for i := 0; i < n1; i++ {
 		v1 = append(v1, randField(r, i, "A"))
 	}
+	if r.Intn(3) == 0 {
+		// a composite, unique, partial index over two integer fields
+		var ints []int
+		for i, f := range v1 {
+			if (f.Type == "int64" || f.Type == "int32" || f.Type == "uint") && !strings.Contains(f.Col, "Ren") {
+				ints = append(ints, i)
+			}
+		}
+		if len(ints) >= 2 {
+			v1[ints[0]].Idx, v1[ints[1]].Idx = "partial1", "partial2"
+			// (no other tags on the members: unique / default / check would interfere with the three seeded rows)
+			v1[ints[0]].Tags, v1[ints[1]].Tags = nil, nil
+		}
+	}
 	if r.Intn(4) == 0 {
 		v1 = append(v1, fdef{Name: "DeletedAt", Col: "deleted_at", Type: "deleted", Idx: "index"})
 	}
@@ -424,7 +443,32 @@ func run(r *rand.Rand, caseNo int) (hx.M, error) {
 		}
 		return out
 	}
-	return hx.M{"ev": "Mig", "case": caseNo, "table": table, "v1": mj(v1), "added": mj(added), "added_index_on": addedIdx, "steps": steps, "accept": accept}, nil
+	// the named indexes of the model and what the final schema has for them
+	want, final := []hx.M{}, []hx.M{}
+	names := map[string]bool{}
+	for _, f := range append(append([]fdef{}, v2...), added...) {
+		switch {
+		case f.Idx == "partial2" && !names["idx_pu"]:
+			names["idx_pu"] = true
+			want = append(want, hx.M{"name": "idx_pu", "unique": true, "partial": true})
+		case f.Idx == "composite:idx_comp" && !names["idx_comp"]:
+			names["idx_comp"] = true
+			want = append(want, hx.M{"name": "idx_comp", "unique": false, "partial": false})
+		}
+	}
+	rec.SetRecording(false)
+	if rows, err := sqldb.Query("SELECT name, sql FROM sqlite_master WHERE type = 'index' AND tbl_name = ? AND sql IS NOT NULL", table); err == nil {
+		for rows.Next() {
+			var name, ddl string
+			if rows.Scan(&name, &ddl) == nil && names[name] {
+				up := strings.ToUpper(ddl)
+				final = append(final, hx.M{"name": name, "unique": strings.Contains(up, "UNIQUE INDEX"), "partial": strings.Contains(up, " WHERE ")})
+			}
+		}
+		rows.Close()
+	}
+	return hx.M{"ev": "Mig", "case": caseNo, "table": table, "v1": mj(v1), "added": mj(added), "added_index_on": addedIdx, "steps": steps, "accept": accept,
+		"want_indexes": want, "final_indexes": final}, nil
 }
 
 func eq(a, b interface{}) bool {
